@@ -769,3 +769,77 @@ func scanPanicObligationsOpt(w *World, r *Report, rule string, cone map[*types.F
 var skipExplicitPanics bool
 
 var _ = packages.NeedName
+
+// c07WordStops: the runes at which lexString's scan of an unquoted word stops
+// (peek-then-read form: the values of the rune peeked for which next() is not
+// reached; read-then-give-back form: the values of the rune read for which
+// backup() follows).  ok is false when neither form is recognised.
+func c07WordStops(w *World) (stops ISet, ok bool) {
+	word := w.SSAFunc(w.Func("parse", "lexString"))
+	next := w.SSAFunc(w.Method("parse", "lexer", "next"))
+	peek := w.SSAFunc(w.Method("parse", "lexer", "peek"))
+	backup := w.SSAFunc(w.Method("parse", "lexer", "backup"))
+	if word == nil || next == nil {
+		return nil, false
+	}
+	sym := NewSym(w)
+	sym.Expand = true
+	var consume func(f *ssa.Function, ctx *symCtx, depth int) (*pcF, []string)
+	consume = func(f *ssa.Function, ctx *symCtx, depth int) (*pcF, []string) {
+		out := pcZ
+		var subj []string
+		for _, b := range f.Blocks {
+			for _, in := range b.Instrs {
+				c, isC := in.(*ssa.Call)
+				if !isC {
+					continue
+				}
+				g := c.Call.StaticCallee()
+				switch {
+				case g == next:
+					out = pcOrF(out, sym.PathCond(f.Blocks[0], b, ctx))
+				case g == peek && peek != nil:
+					subj = append(subj, sym.Key(c, ctx))
+				case g != nil && depth < 2 && g.Blocks != nil && g != f && strings.HasPrefix(pkgPathOf(g), modPath) && calleesDeep(g, 2)[next]:
+					sub, ss := consume(g, &symCtx{call: c, parent: ctx}, depth+1)
+					out = pcOrF(out, pcAndF(sym.PathCond(f.Blocks[0], b, ctx), sub))
+					subj = append(subj, ss...)
+				}
+			}
+		}
+		return out, subj
+	}
+	reaches, subjects := consume(word, nil, 0)
+	for _, sk := range subjects {
+		if stuck, decided := pcValuesWhen(pcNotF(reaches), sk); decided {
+			return stuck, true
+		}
+	}
+	for _, b := range word.Blocks {
+		for _, in := range b.Instrs {
+			c, isC := in.(*ssa.Call)
+			if !isC || c.Call.StaticCallee() != next || backup == nil {
+				continue
+			}
+			if always, decided := pcEvalFree(sym.PathCond(word.Blocks[0], b, nil), func(*pcAtom) (bool, bool) { return false, false }); !decided || !always {
+				continue
+			}
+			unread := pcZ
+			for _, bb := range word.Blocks {
+				for _, in2 := range bb.Instrs {
+					if bc, isB := in2.(*ssa.Call); isB && bc.Call.StaticCallee() == backup {
+						if bb == b {
+							unread = pcT
+						} else {
+							unread = pcOrF(unread, sym.PathCond(b, bb, nil))
+						}
+					}
+				}
+			}
+			if stuck, decided := pcValuesWhen(unread, sym.Key(c, nil)); decided {
+				return stuck, true
+			}
+		}
+	}
+	return nil, false
+}
